@@ -1,4 +1,4 @@
-"""usage: dbg_norm.py <variant-id|-> <module> <Class.method|func>  -- print the normalised source of one function (debug aid)."""
+"""usage: dbg_norm.py <variant-id|patch.diff|-> <module> <Class.method|func>  -- print the normalised source of one function (debug aid)."""
 import os, sys, ast, warnings
 sys.path.insert(0, os.path.dirname(os.path.dirname(os.path.abspath(__file__))))
 warnings.simplefilter("ignore")
@@ -6,7 +6,9 @@ from sa.mutants import *
 from sa.corpus import CORPUS
 mid, mod, fn = sys.argv[1:4]
 src = load_sources()
-if mid != "-":
+if os.path.exists(mid):
+    src = apply_unified_diff(src, open(mid).read())
+elif mid != "-":
     m = next(x for x in CORPUS if x.id == mid)
     src = apply(m, src)
 model = Model(sources=src)
